@@ -544,7 +544,13 @@ fn verif_harness_ext(toks: &[&str]) -> String {
                     .chain(b"ZCZC-WXR-RWT-012345+0015-0011122-NOCALL  -".iter().copied()).collect();
                 let p = Params { rate, amp: 8000.0, dc: 100.0, phase: 0.3, frac: 0.25, baud_err: 0.0,
                                  snr_db: Some(25.0), seed: u("seed").unwrap_or(1) as u64 };
-                let script = format!("S0.05,B{},S0.05,N0.05:3000,Q0.05:20000:300", hex_of_bytes(&hdr));
+                // long=1: the burst runs on into six seconds of a carrier of valid characters (a burst as long as the framer lets it
+                // become, whatever ends it in this configuration), then silence
+                let script = if kv(rest, "long").is_some() {
+                    format!("S0.05,B{},F6.0:8000,S0.5,N0.3:3000", hex_of_bytes(&hdr))
+                } else {
+                    format!("S0.05,B{},S0.05,N0.05:3000,Q0.05:20000:300", hex_of_bytes(&hdr))
+                };
                 let audio = synth::synthesize(&p, &script);
                 let n = usize::min(audio.len(), (secs * rate as f64) as usize);
                 nev = rx.iter_events(audio[..n].iter().copied()).count();
